@@ -100,7 +100,7 @@ def cases(draw):
     objs = []
     for i in range(nobj):
         o = {
-            "place": draw(st.sampled_from(["in", "in", "on"])),
+            "place": draw(st.sampled_from(["in", "in", "on", "atoff"])),
             "region": draw(region_spec(allow3d, True)),
             "dims": [draw(rng_or_const(0.5, 4)), draw(rng_or_const(0.5, 4)),
                      draw(rng_or_const(0.5, 3))],
@@ -110,9 +110,10 @@ def cases(draw):
             "container": draw(st.one_of(st.none(), st.none(), region_spec(allow3d, False))),
             "vis": draw(st.sampled_from([None, None, None, "requireVisible", "visible"])),
         }
-        if o["place"] == "on" and draw(st.booleans()):
+        if o["place"] == "atoff" or (o["place"] == "on" and draw(st.booleans())):
             o["offset"] = [draw(rng_or_const(-4, 4)), draw(rng_or_const(-4, 4)),
-                           draw(rng_or_const(-1, 1)) if not mode2D else 0]
+                           draw(st.one_of(rng_or_const(-1, 1), rng_or_const(-10, 2)))
+                           if not mode2D else 0]
         if mode2D and o["region"]["kind"] == "box":
             o["region"]["kind"] = "rect"
             o["region"]["heading"] = 0
@@ -120,7 +121,8 @@ def cases(draw):
     ego = {"x": _num(draw, -5, 5), "y": _num(draw, -5, 5),
            "visibleDistance": _num(draw, 4, 20),
            "viewAngle": draw(st.sampled_from([360, 360, 120, 60])),
-           "yaw": _num(draw, -3, 3)}
+           "yaw": _num(draw, -3, 3),
+           "z": 0 if mode2D else draw(st.sampled_from([0, 0, 0, 4, 10]))}
     return {"mode2D": mode2D, "ws": ws, "objs": objs, "ego": ego,
             "seed": draw(st.integers(0, 10**6))}
 
@@ -129,7 +131,8 @@ HEADINGS = [-3.1, -3.0, -2.5, -1.5, -0.4, 0, 0.8, 1.6, 2.9, 3.1]
 REQ_FORMS = ["X >= {c}", "{c} <= X", "{a} < X < {b}", "{b} > X", "X < {c}", "abs(X) <= {c}",
              "abs(X - {k}) < {c}", "abs(X + {k}) < {c}", "{c} >= abs(X)", "X != {c}",
              "{a} <= X <= {b}", "abs({k} + X) <= {c}", "{b} >= X >= {a}", "X != {a}", "{a} != X",
-             "X > {a}", "{a} > X"]
+             "X > {a}", "{a} > X", "abs({k} - X) <= {c}", "abs({k} - X) < {c}", "{c} > abs(X - {k})",
+             "{c} >= abs({k} - X)"]
 
 
 @st.composite
@@ -139,7 +142,8 @@ def rh_cases(draw):
               "h": draw(st.sampled_from(HEADINGS))} for i in range(ncell)]
     def objspec():
         return {"rel": draw(st.one_of(st.none(), st.none(), rng_or_const(-0.5, 0.5))),
-                "vis": draw(st.sampled_from([None, "requireVisible", "visible"]))}
+                "vis": draw(st.sampled_from([None, "requireVisible", "visible"])),
+                "size": draw(st.sampled_from([1, 1, 0.5, 3, 6]))}
     reqs = []
     for _ in range(draw(st.integers(1, 2))):
         a = _num(draw, -3, 2)
@@ -170,14 +174,20 @@ def emit_rh(c):
             return "facing vf"
         return f"facing ({val_src(o['rel'])}) relative to vf"
 
+    def size(o):
+        sz = o.get("size", 1)
+        return f", with width {sz}, with length {sz}" if sz != 1 else ""
+
     L.append(f"ego = new Object in union, {facing(c['ego'])}, with visibleDistance "
-             f"{c['visibleDistance']}, with allowCollisions True, with requireVisible False")
+             f"{c['visibleDistance']}, with allowCollisions True, with requireVisible False"
+             + size(c["ego"]))
     o = c["other"]
     vis = {"requireVisible": ", with requireVisible True", "visible": ", visible from ego",
            None: ", with requireVisible False"}[o["vis"]]
     if o["vis"] == "visible":
         vis += ", with requireVisible False"
-    L.append(f"other = new Object in union, {facing(o)}, with allowCollisions True{vis}")
+    L.append(f"other = new Object in union, {facing(o)}, with allowCollisions True{vis}"
+             + size(o))
     for r in c["reqs"]:
         def num(v):
             return f"({v * 20} deg)" if r["deg"] else repr(v)
@@ -202,13 +212,19 @@ def emit(c):
     if c["ws"] is not None:
         L.append(f"workspace = Workspace({region_src(c['ws'])})")
     e = c["ego"]
-    L.append(f"ego = new Object at ({e['x']}, {e['y']}), facing {e['yaw']}, "
+    L.append(f"ego = new Object at ({e['x']}, {e['y']}, {e.get('z', 0)}), facing {e['yaw']}, "
              f"with visibleDistance {e['visibleDistance']}, with viewAngle {e['viewAngle']} deg, "
              f"with allowCollisions True, with width 0.2, with length 0.2, with height 0.2, "
              f"with regionContainedIn everywhere, with requireVisible False")
     for i, o in enumerate(c["objs"]):
         L.append(f"reg{i} = {region_src(o['region'])}")
-        specs = [f"{o['place']} reg{i}"]
+        if o["place"] == "atoff":
+            # position = uniform point in the region + offset vector with known support
+            ox, oy, oz = o["offset"]
+            specs = [f"at (new Point in reg{i}) offset by ({val_src(ox)}, {val_src(oy)}, "
+                     f"{val_src(oz)})"]
+        else:
+            specs = [f"{o['place']} reg{i}"]
         w, l, h = o["dims"]
         specs += [f"with width {val_src(w)}", f"with length {val_src(l)}",
                   f"with height {val_src(h)}", "with allowCollisions True"]
@@ -216,7 +232,7 @@ def emit(c):
             specs.append(f"facing {val_src(o['yaw'])}")
         if o["pitchroll"]:
             specs += ["with pitch Range(0, 0.6)", "with roll Range(-0.4, 0.4)"]
-        if o["offset"] is not None:
+        if o["offset"] is not None and o["place"] != "atoff":
             ox, oy, oz = o["offset"]
             specs.append(f"with baseOffset ({val_src(ox)}, {val_src(oy)}, {val_src(oz)})")
             specs.append("with contactTolerance 0")
@@ -288,16 +304,41 @@ def member(region, pt, tol):
     return bool(region.containsPoint(pt)) or region.distanceTo(pt) <= tol, "fallback-membership"
 
 
+class LivelockProved(BaseException):
+    """A deterministic helper was called > 32 times with identical arguments on unchanged
+    state inside one compilation: the retry loop around it can never make progress."""
+
+
 def compile_with(src, mode2D, prune):
     import scenic
     import scenic.syntax.translator as tr
+    from scenic.core.regions import MeshVolumeRegion
 
     old = tr.usePruning
     tr.usePruning = prune
+    saved = {}
+    calls = {}
+
+    def counting(name, fn):
+        def wrapper(self, *args, **kwargs):
+            key = (name, id(self), repr(args), repr(sorted(kwargs.items())))
+            calls[key] = calls.get(key, 0) + 1
+            if calls[key] > 32:
+                raise LivelockProved(name)
+            return fn(self, *args, **kwargs)
+
+        return wrapper
+
+    if prune:  # observation only: count calls of the voxel helpers used by the retry loops
+        for name in ("_erodeOverapproximate", "_bufferOverapproximate"):
+            saved[name] = MeshVolumeRegion.__dict__[name]
+            setattr(MeshVolumeRegion, name, counting(name, saved[name]))
     try:
         return scenic.scenarioFromString(src, mode2D=mode2D)
     finally:
         tr.usePruning = old
+        for name, fn in saved.items():
+            setattr(MeshVolumeRegion, name, fn)
 
 
 def cell_of(c, i):
@@ -326,6 +367,8 @@ def cell_of(c, i):
         parts.append("pitchroll")
     if o["vis"]:
         parts.append(o["vis"])
+    if c["ego"].get("z"):
+        parts.append("ego-elevated")
     if c["mode2D"]:
         parts.append("2D")
     return ":".join(parts)
@@ -423,6 +466,9 @@ def judge(c, nscenes=120, tries=400):
 
     try:
         pruned = compile_with(src, c["mode2D"], True)
+    except LivelockProved as e:
+        out.fail("nontermination|" + str(e), source=src)
+        return out
     except InvalidScenarioError as e:
         if accepted_plain:
             out.fail("infeasible-reported|" + cell_of(c, 1) + "|" + core.exc_signature(e),
